@@ -513,6 +513,7 @@ func Main(args []string) {
 		var doc struct {
 			Property string          `json:"property"`
 			Kind     string          `json:"kind"`
+			Key      string          `json:"key"`
 			What     string          `json:"what"`
 			Input    json.RawMessage `json:"input"`
 		}
@@ -526,6 +527,13 @@ func Main(args []string) {
 		bad, detail := c.Replay(doc.Kind, doc.Input)
 		fmt.Printf("replay %s kind=%s\n%s\n", doc.Property, doc.Kind, detail)
 		if bad {
+			r := New(doc.Property)
+			for _, f := range r.findings {
+				if f.Property == doc.Property && f.Status == "known" && f.Key == doc.Key {
+					fmt.Printf("KNOWN-FINDING: property=%s %s [%s]\n", doc.Property, f.What, f.Key)
+					os.Exit(0)
+				}
+			}
 			fmt.Printf("VIOLATION property=%s replay=%s\n", doc.Property, args[1])
 			os.Exit(1)
 		}
